@@ -41,6 +41,24 @@ func main() {
 		}
 	case "discover":
 		os.Exit(cmdDiscover(os.Args[2:]))
+	case "selftest":
+		if len(os.Args) < 3 {
+			usage()
+		}
+		bad := 0
+		for _, id := range os.Args[2:] {
+			for _, st := range runSelfTests(id, repoDir("")) {
+				v := "ok  "
+				if !st.OK {
+					v = "FAIL"
+					bad++
+				}
+				fmt.Printf("%s %s %-18s %-40s %s\n", v, id, st.Kind, st.Name, st.Detail)
+			}
+		}
+		if bad > 0 {
+			os.Exit(2)
+		}
 	default:
 		usage()
 	}
